@@ -556,6 +556,10 @@ def snap_node(n):
          'slotted': 1 if n.slotted else 0,
          'all_busy': [tk(x) for x in n.all_servers_busy], 'all_total': [tk(x) for x in n.all_servers_total],
          'next_shift': tk(getattr(n, 'next_shift_change', None)),
+         # engine stage 2 (new keys only): highest_id, next_class_change_date / _ind
+         'highest_id': capv(n.highest_id) if hasattr(n, 'highest_id') else None,
+         'ncc_date': tk(getattr(n, 'next_class_change_date', None)),
+         'ncc_ind': iid(getattr(n, 'next_class_change_ind', None)),
          }
     ni = getattr(n, 'next_individual', None)
     d['next_inds'] = [iid(i) for i in ni] if isinstance(ni, list) else ([iid(ni)] if ni is not None else [])
